@@ -52,22 +52,17 @@ def all_literal(tree):
     return names
 
 
-def position_rules(ptree, qtree, opts=None):
+def position_rules(ptree, qtree, opts=None, r=None):
     """docstrings stay the first statement of their body; from __future__ imports stay ahead of all other code"""
     out = []
-
-    def bodies(tree):
-        res = [('module', tree.body)]
-        for n in ast.walk(tree):
-            if isinstance(n, (ast.FunctionDef, ast.AsyncFunctionDef, ast.ClassDef)):
-                res.append((type(n).__name__, n.body))
-        return res
-    pb, qb = bodies(ptree), bodies(qtree)
-    if len(pb) == len(qb) and not (opts or {}).get('remove_literal_statements'):
-        for (kp, a), (kq, b) in zip(pb, qb):
-            if a and matcher.is_docstring_stmt(a[0]):
+    if r is not None and not (opts or {}).get('remove_literal_statements'):
+        # bodies paired through the lock-step walk (scope correspondence), not by position in the file
+        for pi, qi in sorted(r.scope_map.items()):
+            pn_, qn_ = r.pmodel.scopes[pi].node, r.qmodel.scopes[qi].node
+            a, b = getattr(pn_, 'body', None), getattr(qn_, 'body', None)
+            if isinstance(a, list) and isinstance(b, list) and a and matcher.is_docstring_stmt(a[0]):
                 if not (b and matcher.is_docstring_stmt(b[0]) and b[0].value.value == a[0].value.value):
-                    out.append('the docstring of a %s body is no longer its first statement' % kp)
+                    out.append('the docstring of a %s body (%s) is no longer its first statement' % (type(pn_).__name__, r.pmodel.scopes[pi].name))
     seen_other = False
     for st in qtree.body:
         if isinstance(st, ast.ImportFrom) and st.module == '__future__':
@@ -218,7 +213,7 @@ def run_case(case):
         for p in r.problems:
             if p['kind'] in C06_KINDS:
                 viol(None, '%s: %s' % (p['kind'], p['detail']))
-        for msg in position_rules(ptree, qtree, opts):
+        for msg in position_rules(ptree, qtree, opts, r):
             viol(None, msg)
         consts = [a for a in r.aliases if a['kind'] == 'const']
         if consts:
@@ -261,9 +256,10 @@ def run_case(case):
         pl = set(pl)
         for pkey, qkey, kind in r.report.pairs:
             po, qo = r.pmodel.occ.get(pkey), r.qmodel.occ.get(qkey)
-            if po is None or qo is None or po.raw == qo.raw or not po.binding or po.binding[0] != 'b':
+            eb = r.effective.get(pkey, po.binding if po is not None else None)
+            if po is None or qo is None or po.raw == qo.raw or not eb or eb[0] != 'b':
                 continue
-            sc = r.pmodel.scopes[po.binding[1]]
+            sc = r.pmodel.scopes[eb[1]]
             if sc.kind == 'module' and po.raw in pg:
                 viol(None, 'module-level name %s is to be preserved (preserve_globals / __all__ / entrypoint) but became %s' % (po.raw, qo.raw))
             if sc.kind != 'module' and po.raw in pl:
